@@ -309,7 +309,14 @@ void iv_signal_unregister(struct iv_signal *this)
 		sa.sa_flags = 0;
 		sigaction(this->signum, &sa, NULL);
 	} else if ((this->flags & IV_SIGNAL_FLAG_EXCLUSIVE) && this->active) {
-		__iv_signal_do_wake(iv_signal_tree(this), this->signum);
+		/*
+		 * Hand the noted delivery to whoever would have received
+		 * it had this interest not existed: the remaining interests
+		 * of this thread, else the process-wide ones.
+		 */
+		if (!__iv_signal_do_wake(iv_signal_tree(this), this->signum) &&
+		    (this->flags & IV_SIGNAL_FLAG_THIS_THREAD))
+			__iv_signal_do_wake(&process_sigs, this->signum);
 	}
 
 	spin_unlock_sigmask(&sig_lock, &mask);
